@@ -246,7 +246,7 @@ PROPS = {
                   'Pbc.Props.C11.only_required_fields_matter'] + SCAN_MODEL,
         refine=['parse_tag_and_wiretype_spec', 'scan_length_prefixed_data_spec', 'scan_varint_spec'],
         cases=[('req', 300, 5000, ['--big']), ('wire', 150, 2000, [])],
-        oracle='c11',
+        oracle='c11', gen=(8, 60),
     ),
     'C19': dict(
         title='the validity check accepts only messages that are safe to serialise',
@@ -868,6 +868,49 @@ def main():
                                                 'schema': schema_block_for(res['lines'], idx), 'ops': [l], 'impl_output': a, 'variant_output': b,
                                                 'what': 'build variant %s behaves differently from the default build' % vname}))
             cov['variants'][vname] = {'differences': nd}
+    # ---- C16: the gen_init_helpers option (generated initialiser vs the runtime's generic one) must not change behaviour ----
+    if P.get('variants') and harness_ok:
+        nd, nops = 0, 0
+        hb = os.path.join(BUILD, 'harness_asan')
+        env = dict(os.environ, ASAN_OPTIONS='detect_leaks=0', UBSAN_OPTIONS='print_stacktrace=0')
+        for label, res in runs:
+            if not os.path.exists(res.get('case', '')):
+                continue
+            twin = res['case'] + '.inittwin'
+            tl = []
+            L_ = res['lines']
+            for k_, l in enumerate(L_):
+                t = l.split(' ')
+                if t[0] == 'msg' and len(t) >= 6 and t[4] in ('0', '1'):
+                    # a field whose generated initialiser stores something other than the declared default (an enum without
+                    # [default] whose first declared value is not 0) is known finding F17 (C12): not flipped here
+                    nf_ = int(t[3])
+                    if all(x.split(' ')[-1] == '-' for x in L_[k_ + 1:k_ + 1 + nf_] if x.startswith('f ')):
+                        t[4] = '1' if t[4] == '0' else '0'
+                        l = ' '.join(t)
+                tl.append(l)
+            open(twin, 'w').write('\n'.join(tl) + '\n')
+            rv = run([hb, twin], env=env)
+            outv = rv.stdout.split('\n')
+            for idx, l in enumerate(res['lines']):
+                if not l or l.split(' ', 1)[0] not in ('unpack', 'acc', 'pack', 'rt', 'check', 'init'):
+                    continue
+                nops += 1
+                a_ = res['impl'][idx] if idx < len(res['impl']) else '<missing>'
+                b_ = outv[idx] if idx < len(outv) else '<missing>'
+                if a_ != b_:
+                    nd += 1
+                    if nd <= 2:
+                        what = 'the same schema with the other initialiser (gen_init_helpers on/off) behaves differently'
+                        violations.append((what, {'property': pid, 'kind': 'variant', 'variant': 'inittwin', 'seed': seed, 'label': label,
+                                                  'schema': schema_block_for(res['lines'], idx), 'ops': [l], 'impl_output': a_, 'variant_output': b_,
+                                                  'what': what}))
+            try:
+                os.remove(twin)
+            except OSError:
+                pass
+        cov['variants']['inittwin'] = {'differences': nd, 'ops': nops}
+        cov['evaluations'] += nops
     # ---- threads (C17) ----------------------------------------------------------------------------------
     if P.get('threads') and harness_ok:
         cov['threads'] = {}
